@@ -285,6 +285,71 @@ def run(prog, R):
                     R.add('UNIT-3', b, 'consume#%d:all-offsets-shifted' % (ci + 1), not missing and not wrong, site(b, ct.line),
                           'offsets rewritten after consume: %s; missing: %s; not shifted by the consumed amount: %s' % (sorted('.'.join(o) for o in written), ['.'.join(o) for o in missing], ['.'.join(o) for o in wrong]))
     R.floor('UNIT-3', 3)
+    # ---------------- EPOS-6: the line counter moves with the byte counter
+    R.rule('EPOS-6', 'the file line counter is advanced in the same function and on the same paths as the file byte offset (the advance over a record: +4 lines for FASTQ, + number of line offsets for FASTA); apart from that it is only initialised at the first record and copied by seek')
+    from fsm import Interp
+    for fmt in ('fasta', 'fastq'):
+        it = Interp(prog, fmt)
+        writers = {}
+        for b in reader_bodies(prog, fmt):
+            if b.key.endswith('::with_capacity') or b.key.endswith('::new') or b.key.endswith('::set_policy'):
+                continue
+            for blk in b.blocks:
+                if blk.idx not in b.cfg.rset:
+                    continue
+                for st in blk.stmts:
+                    if st.k == 'assign' and st.place.local == 1:
+                        names = tuple(p['name'] for p in st.place.proj if p['k'] == 'field')
+                        if names in (('position', 'line'), ('position',)):
+                            writers.setdefault(b.path, []).append((blk.idx, st, names))
+        if not it.advance:
+            R.anchor_missing('EPOS-6', '%s: advance function' % fmt)
+            continue
+        for ap in sorted(it.advance):
+            ab = prog.bodies[ap]
+            ws = [w for w in writers.get(ap, []) if w[2] == ('position', 'line')]
+            ok = False
+            det = 'no update of position.line in the advance function'
+            for (bi, st, names) in ws:
+                if st.rv.k == 'bin' and st.rv.j['op'].startswith('Add'):
+                    ops = st.rv.ops
+                    other = [o for o in ops if o.is_const or [p['name'] for p in o.place.proj if p['k'] == 'field'] != ['position', 'line']]
+                    if len(other) == 1:
+                        o = other[0]
+                        if fmt == 'fastq':
+                            ok = o.const_int() == 4
+                            det = 'position.line += %s' % o.pretty()
+                        else:
+                            rs = roots_of(ab, o, U.du_of(ab), through_calls=identity_through)
+                            ok = bool(rs) and all(r[0] == 'call' and r[1].callee.name == 'len' and
+                                                  all(q[0] == 'arg' and [z[1] for z in q[-1]] == ['buf_pos', 'seq_pos'] for q in roots_of(ab, r[1].args[0], U.du_of(ab), through_calls=identity_through))
+                                                  for r in rs)
+                            det = 'position.line += len(buf_pos.seq_pos): %s' % ok
+                        # same paths: the line update and the byte update dominate the exit together
+                        byte_blocks = [x for x in ab.cfg.reachable for s2 in ab.blocks[x].stmts
+                                       if s2.k == 'assign' and tuple(p['name'] for p in s2.place.proj if p['k'] == 'field') == ('position', 'byte')]
+                        ok = ok and all(ab.cfg.dominates(bi, e) and all(ab.cfg.dominates(bb, e) for bb in byte_blocks) for e in ab.cfg.exits)
+            R.add('EPOS-6', ab, 'lines-advance-with-bytes', ok, site(ab, ab.span['lo']), det)
+        for wp, ws in sorted(writers.items()):
+            if wp in it.advance:
+                continue
+            wb = prog.bodies[wp]
+            for (bi, st, names) in ws:
+                if wb.key.endswith('::seek'):
+                    okw = names == ('position',)
+                    why = 'seek copies the target position'
+                elif st.rv.k in ('use', 'cast') and names == ('position', 'line'):
+                    # initialisation at the first record: same function also sets the record start
+                    sets_start = any(s2.k == 'assign' and s2.place.local == 1 and tuple(p['name'] for p in s2.place.proj if p['k'] == 'field') in (('buf_pos', 'start'), ('buf_pos', 'pos', '0'))
+                                     for blk2 in wb.blocks for s2 in blk2.stmts)
+                    okw = sets_start
+                    why = 'initialisation at the first record'
+                else:
+                    okw = False
+                    why = 'the line counter is changed outside the advance over a record (error lines and positions then depend on where a batch ends)'
+                cnt = sum(1 for x in R.items if x['rule'] == 'EPOS-6' and x['key'].startswith('EPOS-6:%s:writer' % wb.key))
+                R.add('EPOS-6', wb, 'writer#%d' % (cnt + 1), okw, site(wb, st.line), why)
+    R.floor('EPOS-6', 4)
     # ---------------- UNIT-5
     for fmt in ('fasta', 'fastq'):
         try:
